@@ -4007,6 +4007,11 @@ fn parse_sequence_keys(exprs: &[SExpr], s: &ParserState) -> Result<Vec<u16>> {
                                 for modk in mods_currently_held.iter().copied() {
                                     seq_num |= mod_mask_for_keycode(modk);
                                 }
+                                if mods_currently_held.iter().any(|m| *m != KEY_OVERLAP)
+                                    && *pressed != KEY_OVERLAP
+                                {
+                                    seq_num |= mod_mask_for_keycode(*pressed);
+                                }
                                 if seq_num & KEY_OVERLAP_MARKER == KEY_OVERLAP_MARKER
                                     && seq_num & MASK_MODDED != KEY_OVERLAP_MARKER
                                 {
